@@ -208,6 +208,13 @@ def wave_case(res, case):
                 sim.s[0, pos, :n] = init[kk][perm]; sim.s[1, pos, :n] = tt[kk][perm]; sim.s[2, pos, :n] = fin[kk][perm]
             sim.s_to_c(); sim.c_prop(seed=0); sim.c_to_s()
         compare(f'reuse-g{int(cuda)}', sim)   # memory behind the terminators may hold stale entries of the earlier run: ports only
+    # a restricted propagation followed by a full one on the same object
+    for cuda in (False, True):
+        sim = W.make_sim(c, delays, n, caps=caps, cuda=cuda)
+        for kk, pos in enumerate(ipos + spos):
+            sim.s[0, pos, :n] = init[kk]; sim.s[1, pos, :n] = tt[kk]; sim.s[2, pos, :n] = fin[kk]
+        sim.s_to_c(); sim.c_prop(sims=min(8, n), seed=0); sim.c_prop(seed=0); sim.c_to_s()
+        compare(f'narrowwide-g{int(cuda)}', sim)
     # state transfer after capture: CPU method vs GPU kernel; compared through the results of the following cycle
     # (the transferred stimulus of a state element without connected outputs is not observable and not compared)
     if spos:
